@@ -225,21 +225,30 @@ Section RowsReader.
 
   (** rowGroupRows.ReadRows (row_group.go:281-360) for one column, one row per
       iteration ([for rowIndex := range rows]); returns the cursor, the buffer,
-      the row ids handed out and whether the end was hit. *)
+      the row ids handed out and whether the end was hit.  When the values of
+      the row reach the end of the buffered values, the loop reads more values
+      to look for the continuation of the row (repetition level <> 0): the
+      next page is loaded before the row is complete, and the end of the
+      chunk is reported together with the last row. *)
   Fixpoint read_rows (n : nat) (c : state) (bf bc : nat) : state * nat * nat * list nat * bool :=
     match n with
     | O => (c, bf, bc, [], false)
     | S n' =>
-        if bc =? 0 then
-          match fill fuel c with
-          | (c', Some (fr, cnt)) =>
-              let '(c2, bf2, bc2, ids, eof) := read_rows n' c' (S fr) (cnt - 1) in
-              (c2, bf2, bc2, fr :: ids, eof)
-          | (c', None) => (c', bf, 0, [], true)
-          end
-        else
-          let '(c2, bf2, bc2, ids, eof) := read_rows n' c (S bf) (bc - 1) in
-          (c2, bf2, bc2, bf :: ids, eof)
+        let '(c1, buf) := if bc =? 0 then fill fuel c else (c, Some (bf, bc)) in
+        match buf with
+        | None => (c1, bf, 0, [], true)
+        | Some (fr, cnt) =>
+            if cnt <=? 1 then
+              match fill fuel c1 with
+              | (c2, None) => (c2, S fr, 0, [fr], true)
+              | (c2, Some (fr2, cnt2)) =>
+                  let '(c3, bf3, bc3, ids, eof) := read_rows n' c2 fr2 cnt2 in
+                  (c3, bf3, bc3, fr :: ids, eof)
+              end
+            else
+              let '(c3, bf3, bc3, ids, eof) := read_rows n' c1 (S fr) (cnt - 1) in
+              (c3, bf3, bc3, fr :: ids, eof)
+        end
     end.
 
   (** rowGroupRows.SeekToRow (row_group.go:265-279): nothing happens when the
